@@ -81,7 +81,7 @@ CLAIMS = {
  "C05": ("C05_convert: for consecutive variants with well-formed field lists and a record satisfying the record invariant, every one of the four generated conversion functions runs on the abstract machine without error, keeps every carried-over field, gives every written added field the supplied value, returns (or destroys exactly once) the removed values, and re-establishes the invariant; C05_chain: every record reachable by any chain of constructors / conversions / writes satisfies that invariant (induction over Reach). Hypotheses (ModuleWF) are evaluated by the driver on every sampled module; channel X compares compiled code with the machine on every form and random chains.", "4 C05", X_NOTE, "Lean 4 refinement theorems (record invariant, induction over reachable records) + correspondence with compiled generated code"),
  "C06": ("C06_end_of_life (any reachable record: drop destroys exactly the droppable field values, unpack destroys nothing and returns them), C06_removed_dropped (non-returning conversions destroy exactly the removed droppable values), C06_new_then_drop / _unpack, C06_no_second_read_partial; with C05_convert this gives ledger balance along any life cycle. Channel X: drop multiset per call vs machine + independent birth/death ledger with leak detection on compiled code.", "4 C06", X_NOTE,
          "Lean 4 theorems (counting invariant over reachable records) + correspondence with drop ledger on compiled generated code"),
- "C07": ("C07_no_machine_error: on every record reachable by any sequence of constructor / conversion / write of a well-formed module with any capacity >= every field end, drop, unpack, every accessor and every conversion form run without oob / read-moved / store-over-owned / double-free; C07_store_tolerates_misalignment and C07_loads_are_typed decided on the translated primitives; C07_aligned_access, C07_in_bounds. Hook log of compiled code checked for bounds and alignment at real addresses. A Miri pass (cargo +nightly miri run) over 6 (quick) / 24 (thorough) fully initialised lab modules supports the failing-input search: any Undefined Behavior report is a C07 violation with the module as replay (skipped and recorded in the evidence if Miri is not installed).", "4 C07", X_NOTE,
+ "C07": ("C07_no_machine_error: on every record reachable by any sequence of constructor / conversion / write of a well-formed module with any capacity >= every field end, drop, unpack, every accessor and every conversion form run without oob / read-moved / store-over-owned / double-free; C07_store_tolerates_misalignment and C07_loads_are_typed decided on the translated primitives; C07_aligned_access, C07_in_bounds. Hook log of compiled code checked for bounds and alignment at real addresses. A Miri pass (cargo +nightly miri run, 3 (quick) / 8 (thorough) address placements) over 6 / 24 fully initialised lab modules leaning on over-aligned field types supports the failing-input search: any Undefined Behavior report is a C07 violation with the module as replay (skipped and recorded in the evidence if Miri is not installed).", "4 C07", X_NOTE,
          "Lean 4 theorems (no machine error on reachable records; translated primitives) + access-log validation on compiled generated code"),
  "C11": ("Theorems over the generator model + modelled compiler rules, for every definition: C11_size, C11_align, C11_copy (any datum of any "
          "variant with wrong recorded size / alignment, or a may-be-uninit datum of a non-Copy type, makes `accepts` false), "
